@@ -327,4 +327,86 @@ def make(t):
                rule=f"{t}: interleavings of construct / decode / add / remove / edit / encode over a pool of instances")
 
 
+# ---------------------------------------------------------------------------------------
+# blocks obtained through the file API: every read is a separate decode call
+ACCESS = ["get_block-type", "get_block-index", "getitem", "getter", "blocks"]
+
+
+def file_strategy(tier):
+    import hypothesis.strategies as st_
+
+    return st_.fixed_dictionaries({"types": st_.lists(st_.sampled_from(TYPES), min_size=1, max_size=3, unique=True),
+                                   "a": st_.sampled_from(ACCESS), "b": st_.sampled_from(ACCESS), "edit": st_.sampled_from(["add", "remove", "edit", "edit"]),
+                                   "how": st_.integers(0, 20), "same_context": st_.sampled_from([True, True, False])})
+
+
+def run_file(ctx, case):
+    import os
+
+    from basictdf import Tdf
+    from basictdf.tdfBlock import BlockType
+
+    from .. import env, reftdf
+    from ..container import GETTERS
+
+    d = env.fresh_dir()
+    try:
+        path = os.path.join(d, "f.tdf")
+        t0 = Tdf.new(path)
+        ads = {t: Adapter(t) for t in case["types"]}
+        with t0.allow_write() as w:
+            for t in case["types"]:
+                w.add_block(ads[t].with_items(2))
+        target = case["types"][case["how"] % len(case["types"])]
+        code = reftdf.TYPE_CODE[target]
+        ad = ads[target]
+
+        def fetch(f, how):
+            if how == "get_block-type":
+                return f.get_block(BlockType(code))
+            idx = case["types"].index(target)
+            if how == "get_block-index":
+                return f.get_block(idx)
+            if how == "getitem":
+                return f[idx]
+            if how == "getter" and target in GETTERS:
+                return getattr(f, GETTERS[target])
+            if how == "blocks":
+                return f.blocks[idx]
+            return f.get_block(BlockType(code))
+
+        tdf = Tdf(path)
+        if case["same_context"]:
+            with tdf as f:
+                a = fetch(f, case["a"])
+                b = fetch(f, case["b"])
+        else:
+            a = fetch(tdf, case["a"])
+            b = fetch(tdf, case["b"])
+        if a is b:
+            ctx.fail(f"file/{target}/same-object", f"{target}: two reads of the same block through the file API ({case['a']}, {case['b']}) returned the very same object")
+        ia, ib = ad.items(a), ad.items(b)
+        if any(x is y for x in ia for y in ib):
+            ctx.fail(f"file/{target}/shared-items", f"{target}: two reads of the same block through the file API share item objects")
+        before = (len(ib), specs.lib_write(b))
+        if case["edit"] == "add":
+            ad.add(a, ad.item())
+        elif case["edit"] == "remove":
+            ad.remove(a)
+        else:
+            ad.edit(a, case["how"])
+        after = (len(ad.items(b)), specs.lib_write(b))
+        if after != before:
+            ctx.fail(f"file/{target}/other-read-changed", f"{target}: editing the block obtained by one read ({case['edit']}) changed the block obtained by another read of the same file")
+        # the file itself is untouched by editing either copy
+        fresh = Tdf(path).get_block(BlockType(code))
+        if specs.lib_write(fresh) != before[1]:
+            ctx.fail(f"file/{target}/file-content-changed", f"{target}: editing a block read from the file changed what the file yields")
+    finally:
+        env.rmdir(d)
+    ctx.case(case, True, labels=[f"file:{target}", f"access:{case['a']}+{case['b']}", "same-context" if case["same_context"] else "separate-contexts", f"edit:{case['edit']}"])
+
+
 SUBS = [make(t) for t in TYPES]
+SUBS.append(Sub("via-file", run_file, strategy=file_strategy, budget=(150, 4000), shards=(2, 8),
+                rule="1..3 blocks written to a file; the same block read twice through get_block / [] / getters / blocks (same or separate contexts); one copy edited, the other and the file must not change"))
